@@ -1004,6 +1004,11 @@ def replay_up_schedule(sched, seed=0):
                 if not wt:
                     raise RuntimeError('the writer thread does not exist at schedule entry %d' % n)
                 tasks[2] = wt[0]
+            if tasks[p].done:
+                # the task has returned already: the model's remaining steps for it can only be
+                # writes that change nothing (the trace specification treats those as
+                # unobservable); the outcome comparison at the end decides
+                continue
             try:
                 hub.step(tasks[p])
             except RuntimeError as e:
